@@ -78,8 +78,14 @@ func runControls(prop, repo, verif string) ([]controlResult, bool) {
 		fatalf("controls.json: %v", err)
 	}
 	var mine []control
+	only := map[string]bool{} // VERIF_CONTROLS=K1,K2: development aid, runs a subset
+	for _, id := range strings.Split(os.Getenv("VERIF_CONTROLS"), ",") {
+		if id != "" {
+			only[id] = true
+		}
+	}
 	for _, c := range all {
-		if c.Property == prop {
+		if c.Property == prop && (len(only) == 0 || only[c.ID]) {
 			mine = append(mine, c)
 		}
 	}
